@@ -141,6 +141,10 @@ func (s *Set) getSiblingTemplate(templatePath, siblingPath string, cacheAfterPar
 	if !path.IsAbs(templatePath) {
 		siblingDir := path.Dir(siblingPath)
 		templatePath = path.Join(siblingDir, templatePath)
+	} else {
+		// absolute names are cleaned as well, so that loader and cache always see the same canonical
+		// path for a template and "/../x" can't point outside of a loader's root directory
+		templatePath = path.Clean(templatePath)
 	}
 	return s.getTemplate(templatePath, cacheAfterParsing, parents...)
 }
